@@ -6,7 +6,8 @@ import os
 from .routing import TYPES, cargo_shard, rename_crate
 
 PAYLOAD = {"raw": [("payload", "Binary")], "bin": [("payload", "Binary")], "t1": [("p1", "u32")], "t2": [("p1", "u32"), ("p2", "String")],
-           "t3": [("p1", "u32"), ("p2", "String"), ("p3", "Nested")]}
+           "t3": [("p1", "u32"), ("p2", "String"), ("p3", "Nested")],
+           "tn": [("gas_limit", "u32"), ("msg", "String"), ("id", "Nested")]}
 DATA_TY = {"plain": "Nested", "opt": "Option<Nested>", "raw": "Binary", "rawopt": "Option<Binary>",
            "inst": "MsgInstantiateContractResponse", "instopt": "Option<MsgInstantiateContractResponse>"}
 DATA_ATTR = {"plain": "#[sv::data]", "opt": "#[sv::data(opt)]", "raw": "#[sv::data(raw)]", "rawopt": "#[sv::data(raw, opt)]",
@@ -60,12 +61,12 @@ def method_src(prog, m):
         attr, m["name"], ", ".join(params), body)
 
 
-def pay_args(sig, val):
+def pay_arg_list(sig, val):
     out = []
     for i, (n, t) in enumerate(PAYLOAD[sig]):
         ty = {"u32": "u32", "String": "String", "Nested": "Nested", "Binary": "Binary"}[t]
         out.append(TYPES[ty][1][(val + i) % 2][0])
-    return ", ".join(out)
+    return out
 
 
 def program_src(prog):
@@ -90,8 +91,7 @@ def program_src(prog):
              "        %s\n        match (h, val) {\n" % ("" if prog.get("family") == "legacy" else "use sv::SubMsgMethods;"))
     for h in prog["handlers"]:
         for val in (0, 1):
-            args = pay_args(h["payload"], val)
-            lets = "".join("let a%d = %s; " % (i, a) for i, a in enumerate(args.split(", ") if args else []))
+            lets = "".join("let a%d = %s; " % (i, a) for i, a in enumerate(pay_arg_list(h["payload"], val)))
             names = ", ".join("a%d.clone()" % i for i in range(len(PAYLOAD[h["payload"]])))
             encs = ", ".join("rec::enc(&a%d)" % i for i in range(len(PAYLOAD[h["payload"]])))
             o.append("            (\"%s\", %d) => { %sSome(rec::build_with(recv, vec![%s], |r| match r {\n"
